@@ -35,7 +35,7 @@ PROBES = ["behaviour.reply", "behaviour.late", "behaviour.never", "behaviour.dup
           "late_reply_swallowed", "dup_delivered_as_callback", "cancel_while_queued", "cancel_while_sending", "cancel_while_awaiting",
           "link_failed", "sched.batch", "sched.reorder"]
 
-VERSIONS = (4, 7, 8, 13, 14)
+VERSIONS = tuple(range(4, 15))
 # name -> (priority class, kind)
 CMDS = {
     "getValue": 999, "readCounters": 999, "nop": 999, "readAndClearCounters": 999,
